@@ -104,6 +104,28 @@ CHECKS = {
                  ops=['delete_cell', 'delete_face', 'collect_garbage', 'collapse_edge', 'collapse_edge', 'collapse_edge', 'collapse_edge',
                       'tet_add_cell_4', 'add_vertex', 'split_edge', 'split_face', 'enable_deferred', 'enable_fast'], q=0),
     ),
+    # C05 stage: protocol of the specialised circulators (tv_iter, hv_iter, csc_iter x 6 directions, hfshf_iter),
+    # max_laps 1..3.  Run as `python3 bin/tethex_check.py C05 --tier ...`; prints C05STATS, writes no evidence.
+    'C05': dict(
+        kind='tet', props=['C05'], plevel=0, proto=1, stats_only=True,
+        quick=[
+            dict(name='tet', kind='tet', Depth=2, SeedIds=[2, 3, 5, 7, 9], HistOps=['delete_cell'],
+                 TargetOps=['delete_cell', 'collect_garbage'], q=0, sample=150),
+            dict(name='hex', kind='hex', Depth=2, SeedIds=[1, 2, 3, 4, 5, 6, 7], HistOps=['delete_cell'],
+                 TargetOps=['delete_cell', 'collect_garbage'], q=0, sample=150),
+            dict(name='hex-3x3x3', kind='hex', Depth=1, SeedIds=[9], Modes='ModesDefault', HistOps=[],
+                 TargetOps=['collect_garbage', 'enable_fast'], q=0),
+        ],
+        thorough=[
+            dict(name='tet', kind='tet', Depth=2, SeedIds=[1, 2, 3, 4, 5, 6, 7, 8, 9, 10], HistOps=['delete_cell', 'collapse_edge', 'delete_vertex'],
+                 TargetOps=['delete_cell', 'delete_face', 'collect_garbage', 'collapse_edge'], q=0, sample=3000),
+            dict(name='hex', kind='hex', Depth=3, SeedIds=[1, 2, 3, 4, 5, 6, 7], HistOps=['delete_cell', 'collect_garbage'],
+                 TargetOps=['delete_cell', 'delete_face', 'delete_vertex', 'collect_garbage', 'hex_add_cell_v'], q=0, sample=3000),
+            dict(name='hex-3x3x3', kind='hex', Depth=2, SeedIds=[9], Modes='ModesAll', HistOps=['delete_cell'],
+                 TargetOps=['delete_cell', 'collect_garbage'], q=0, sample=60),
+        ],
+        sim=None,
+    ),
     'C16': dict(
         kind='hex', props=['C16'],
         quick=[
@@ -422,6 +444,8 @@ def run_check(prop, tier, seed, replay=None):
                impl_steps_executed=0, drift_lines=0, model_findings=[], counters={}, seeds=[])
 
     def absorb(agg):
+        for f_ in agg['failures'] + agg['crashes']:
+            f_['kind'] = kind
         failures.extend(agg['failures']); crashes.extend(agg['crashes']); drifts.extend(agg['drifts'])
         cov['traces_validated_against_impl'] += agg['checked']
         cov['impl_steps_executed'] += agg['lines']
@@ -443,6 +467,7 @@ def run_check(prop, tier, seed, replay=None):
             c = dict(mc)
             if only and c['name'] not in only:
                 continue
+            kind = c.get('kind', cfg['kind'])
             cp = os.path.join(work, 'mc%d.cfg' % n)
             write_cfg(cp, c, kind)
             r = run_tlc(cp, work)
@@ -464,7 +489,7 @@ def run_check(prop, tier, seed, replay=None):
                                      org=mb.get('script'), detail=json.dumps(mb)))
             if not trans:
                 continue
-            opts = 'props=%d q=%d' % (cfg.get('plevel', 1), c.get('q', 1))
+            opts = 'props=%d q=%d' % (cfg.get('plevel', 1), c.get('q', 1)) + (' proto=1' if cfg.get('proto') else '')
             scripts = vlib.tree_scripts(r['orgs'], trans, opts, NPAR * 2, mesh=kind)
             if cfg.get('stamp_each'):
                 # every new slot gets distinct values before the next call (logged, not checked)
@@ -548,7 +573,7 @@ def run_check(prop, tier, seed, replay=None):
             if nrep > 40:      # enough replay files for one run
                 rc = 1
                 continue
-            p = write_replay(prop, kind, f, 'props=%d q=1' % cfg.get('plevel', 1))
+            p = write_replay(prop, f.get('kind', kind), f, 'props=%d q=1' % cfg.get('plevel', 1) + (' proto=1' if cfg.get('proto') else ''))
         key = (f.get('msg'), sig['op'], sig['check']) if len(seen) > 12 else (f.get('msg'), p)
         if key in seen:
             continue
